@@ -125,6 +125,48 @@ EXTRA_TOKENS = ['\\mcomma', '\\mcommak', '\\mchars', '\\mtack', '\\ta', '\\tb', 
                 '\\msn', '\\begin{vcode}', '\\end{vcode}', '\n\n']
 
 
+def options_db():
+    """macros whose argument parsers are built with non-default options, other parameterisations
+    of the standard argument letters than the every-type context uses, and pylatexenc-2 style
+    arguments parsers"""
+    from pylatexenc.macrospec import (LatexContextDb, MacroSpec, EnvironmentSpec,
+                                      MacroStandardArgsParser)
+    from pylatexenc.latexnodes import LatexArgumentSpec
+    from pylatexenc.latexnodes import parsers as P
+    A = LatexArgumentSpec
+    std = P.LatexStandardArgumentParser
+    db = LatexContextDb()
+    db.add_context_category('options', macros=[
+        MacroSpec('ofull', [A(std('{', return_full_node_list=True))]),
+        MacroSpec('onosp', [A(std('{', allow_pre_space=False))]),
+        MacroSpec('oonosp', [A(std('[', allow_pre_space=False)), A('{')]),
+        MacroSpec('omark', [A(P.LatexOptionalCharsMarkerParser(
+            ['+', '-'], following_arg_parser=std('{'), max_num_args=2))]),
+        MacroSpec('omarkb', [A(P.LatexOptionalCharsMarkerParser(
+            ['++'], following_arg_parser=std('{'), include_chars_node_before_following_arg=False,
+            return_full_node_list=False, max_num_args=1))]),
+        MacroSpec('omarkg', [A(P.LatexOptionalCharsMarkerParser(
+            ['+'], following_arg_parser=std('{'),
+            collect_chars_with_following_arg_as_delimited_group=True))]),
+        MacroSpec('osn', [A(P.LatexSingleNodeParser(stop_on_comment=False))]),
+        MacroSpec('orr', [A('r()')]), MacroSpec('odd', [A('d()')]), MacroSpec('ott', [A('t!')]),
+        MacroSpec('oee', [A('e{_}')]), MacroSpec('oom', [A('{'), A('[')]),
+        MacroSpec('olegacy', args_parser=MacroStandardArgsParser('*[{')),
+        MacroSpec('olegns', args_parser=MacroStandardArgsParser('[{', optional_arg_no_space=True)),
+    ], environments=[
+        EnvironmentSpec('oenv', [A('s'), A('d()'), A('m')]),
+    ], specials=[])
+    db.set_unknown_macro_spec(MacroSpec(''))
+    db.set_unknown_environment_spec(EnvironmentSpec(''))
+    return db
+
+
+OPTIONS_TOKENS = ['\\ofull', '\\onosp', '\\oonosp', '\\omark', '\\omarkb', '\\omarkg', '\\osn',
+                  '\\orr', '\\odd', '\\ott', '\\oee', '\\oom', '\\olegacy', '\\olegns',
+                  '\\begin{oenv}', '\\end{oenv}', '+', '-', '++', '{', '}', '[', ']', '(', ')', '!',
+                  '_', 'a', ' ', '%', '\n\n', '*']
+
+
 def extdelta_db():
     """database whose first category is auto-named, with an environment whose body extends the
     latex context (ParsingStateDeltaExtendLatexContextDb) by a macro taking an optional argument"""
@@ -150,6 +192,8 @@ def build(recipe):
         return extra_parsers_db()
     if recipe == 'extdelta':
         return extdelta_db()
+    if recipe == 'options':
+        return options_db()
     """recipe: 'default' | 'every' | 'every-nounknown' | 'every-strings' | 'extended'"""
     if recipe is None or recipe == 'default':
         return default_db()
